@@ -785,17 +785,33 @@ def rule_g(ctx: Ctx) -> None:
                 return src.id
             return None
 
-        if not any(lookup_source(d) for ds in defs.values() for d in ds):
+        def lookup_in(d: ast.AST) -> str | None:
+            # the looked-up node may be one of several values of the binding: `tbl.get(k) or fresh(...)`, `tbl[k] if .. else ..`
+            return next((s_ for s_ in (lookup_source(leaf) for leaf in _value_leaves(d)) if s_), None)
+
+        if not any(lookup_in(d) for ds in defs.values() for d in ds):
             continue
+        # local lists that become a child list of a node in this function: appending to them embeds
+        embedded_lists: set[str] = set()
+        for c in walk_no_nested(f.node):
+            if isinstance(c, ast.Call):
+                is_set_ = isinstance(c.func, ast.Attribute) and c.func.attr == "set" and len(c.args) >= 2
+                cn_ = (call_name(c) or "").split(".")[-1]
+                if is_set_ or (cn_ in names and cn_[:1].isupper()):
+                    for a_ in ([c.args[1]] if is_set_ else list(c.args) + [k.value for k in c.keywords]):
+                        if isinstance(a_, ast.Name) and (T.of(m, a_) or "").replace("builtins.", "").startswith("list["):
+                            embedded_lists.add(a_.id)
         for c in walk_no_nested(f.node):
             if not isinstance(c, ast.Call):
                 continue
             is_set = isinstance(c.func, ast.Attribute) and c.func.attr in ("set", "append") and len(c.args) >= 2
+            is_list_add = isinstance(c.func, ast.Attribute) and c.func.attr == "append" and len(c.args) == 1 and isinstance(c.func.value, ast.Name) and c.func.value.id in embedded_lists
             cn = (call_name(c) or "").split(".")[-1]
             is_ctor = cn in names and cn[:1].isupper()
             cf_ = next((k.value for k in c.keywords if k.arg == "copy"), None)
             is_nocopy_builder = isinstance(cf_, ast.Constant) and cf_.value is False and not is_set
-            vals = [c.args[1]] if is_set else (list(c.args) + [k.value for k in c.keywords if k.arg != "copy"]) if (is_ctor or is_nocopy_builder) else []
+            vals = [c.args[1]] if is_set else [c.args[0]] if is_list_add else (list(c.args) + [k.value for k in c.keywords if k.arg != "copy"]) if (is_ctor or is_nocopy_builder) else []
+            vals = [leaf for v_ in vals for leaf in _value_leaves(v_)]
             for v in vals:
                 if not (isinstance(v, ast.Name) and v.id in defs):
                     continue
@@ -804,7 +820,7 @@ def rule_g(ctx: Ctx) -> None:
                 if not before:
                     continue
                 last = max(before, key=lambda d: (d.lineno, d.col_offset))
-                src_tbl = lookup_source(last)
+                src_tbl = lookup_in(last)
                 if src_tbl and maybe_node(T.of(m, v)):
                     looked_up = {v.id: src_tbl}
                     n += 1
@@ -962,7 +978,198 @@ def rule_j(ctx: Ctx) -> None:
     ctx.min_instances("copy_false_calls_in_optimizer", n, 40)
 
 
-RULES = [rule_a, rule_b, rule_c, rule_d, rule_e, rule_f, rule_g, rule_h, rule_i, rule_j]
+REVIEWED_REEMBED: dict[tuple[str, str], str] = {}
+
+
+def _raw_embeds(c: ast.Call, names: set[str]) -> list[tuple[ast.Name, bool]]:
+    """Names handed un-copied to a call that stores its argument in a tree; the flag is True when the name sits in the else-arm of an `a if <test> else name`."""
+    is_set = isinstance(c.func, ast.Attribute) and ((c.func.attr == "set" and len(c.args) >= 2) or (c.func.attr == "append" and len(c.args) == 2))
+    is_replace = isinstance(c.func, ast.Attribute) and c.func.attr == "replace" and len(c.args) == 1 and not c.keywords
+    cn = (call_name(c) or "").split(".")[-1]
+    is_ctor = cn in names and cn[:1].isupper()
+    cf_ = next((k.value for k in c.keywords if k.arg == "copy"), None)
+    nocopy = isinstance(cf_, ast.Constant) and cf_.value is False and not is_set
+    if is_set:
+        vals = [c.args[1]]
+    elif is_replace:
+        vals = [c.args[0]]
+    elif is_ctor or nocopy:
+        vals = list(c.args) + [k.value for k in c.keywords if k.arg not in ("copy", "dialect", "append", "into", "prefix", "quoted", "table", "alias")]
+    else:
+        return []
+    out: list[tuple[ast.Name, bool]] = []
+    for v in vals:
+        if isinstance(v, ast.Name):
+            out.append((v, False))
+        elif isinstance(v, ast.IfExp):
+            if isinstance(v.body, ast.Name):
+                out.append((v.body, False))
+            if isinstance(v.orelse, ast.Name):
+                out.append((v.orelse, True))
+    return out
+
+
+def rule_k(ctx: Ctx) -> None:
+    ctx.rule("C08.k", "a node that was moved into a tree is not embedded again: in optimizer code, after a local node variable has been handed un-copied to replace / set / append / "
+                      "a constructor / a copy=False builder, no path (in particular none around a loop's back edge) reaches another such hand-over of the same variable without the "
+                      "variable being rebound first — the second embedding re-parents a node that the first tree still holds")
+    from ..cfg import CFG
+    from ..typed import types
+
+    T = types(ctx.repo)
+    names = _expr_class_names(ctx)
+
+    def surely_node(ty: str | None) -> bool:
+        if not ty:
+            return False
+        parts = [p.strip() for p in ty.replace("builtins.", "").split(" | ")]
+        keep = [p for p in parts if p != "None"]
+        return bool(keep) and all(p.split(".")[-1].split("[")[0] in names for p in keep)
+
+    n = 0
+    for f in ctx.repo.all_funcs():
+        m = f.module
+        if not m.name.startswith("sqlglot.optimizer"):
+            continue
+        sinks: list[tuple[ast.Call, ast.Name, bool]] = []
+        for c in walk_no_nested(f.node):
+            if isinstance(c, ast.Call):
+                for v, in_else in _raw_embeds(c, names):
+                    if v.id not in ("self", "cls") and surely_node(T.of(m, v)):
+                        sinks.append((c, v, in_else))
+        by_var: dict[str, list[tuple[ast.Call, ast.Name, bool]]] = {}
+        for c, v, e in sinks:
+            by_var.setdefault(v.id, []).append((c, v, e))
+        if not by_var:
+            continue
+        g = CFG(f.node)
+
+        def rebinds(node, var: str) -> bool:
+            a = node.ast
+            if a is None:
+                return False
+            if node.kind == "for":
+                return any(isinstance(x, ast.Name) and x.id == var for x in ast.walk(a.target))  # type: ignore[attr-defined]
+            if node.kind == "with":
+                return any(it.optional_vars is not None and any(isinstance(x, ast.Name) and x.id == var for x in ast.walk(it.optional_vars)) for it in a.items)  # type: ignore[attr-defined]
+            if isinstance(a, (ast.FunctionDef, ast.AsyncFunctionDef, ast.ClassDef)):
+                return False
+            return any(isinstance(x, ast.Name) and x.id == var and isinstance(x.ctx, ast.Store) for x in ast.walk(a))
+
+        def last_iteration_only(c: ast.Call, v: ast.Name) -> ast.AST | None:
+            """The hand-over runs in the final iteration only: it sits in the arm of an `if` / conditional expression that compares the index of
+            `for i, _ in enumerate(xs)` with `last` where `last = len(xs) - 1` (else-arm of `i < last` / `i != last`, then-arm of `i == last` / `i >= last`); returns that loop."""
+            loop = m.parent(c)
+            while loop is not None and not isinstance(loop, ast.For):
+                if isinstance(loop, (ast.FunctionDef, ast.AsyncFunctionDef, ast.Lambda, ast.While)):
+                    return None
+                loop = m.parent(loop)
+            if loop is None or not (isinstance(loop.iter, ast.Call) and call_name(loop.iter) == "enumerate" and loop.iter.args and isinstance(loop.target, ast.Tuple)
+                                    and isinstance(loop.target.elts[0], ast.Name)):
+                return None
+            idx = loop.target.elts[0].id
+            coll = norm(loop.iter.args[0])
+            lasts = {norm(st.targets[0]) for st in walk_no_nested(f.node)
+                     if isinstance(st, ast.Assign) and len(st.targets) == 1 and norm(st.value) == f"len({coll}) - 1"}
+            child: ast.AST = v
+            par = m.parent(child)
+            while par is not None and par is not loop:
+                if isinstance(par, (ast.If, ast.IfExp)) and isinstance(par.test, ast.Compare) and len(par.test.ops) == 1 and isinstance(par.test.left, ast.Name) \
+                        and par.test.left.id == idx and norm(par.test.comparators[0]) in lasts:
+                    op = par.test.ops[0]
+                    in_body = child is par.body if isinstance(par, ast.IfExp) else child in par.body
+                    in_else = child is par.orelse if isinstance(par, ast.IfExp) else child in par.orelse
+                    if (in_body and isinstance(op, (ast.Eq, ast.GtE))) or (in_else and isinstance(op, (ast.Lt, ast.NotEq))):
+                        return loop
+                child, par = par, m.parent(par)
+            return None
+
+        def first_iteration_only(c: ast.Call, v: ast.Name) -> bool:
+            """`x.copy() if moved else x` with `moved = False` before the loop and `moved = True` inside it: the raw arm runs once, for the first element that gets here."""
+            loop = m.parent(c)
+            while loop is not None and not isinstance(loop, (ast.For, ast.While)):
+                if isinstance(loop, (ast.FunctionDef, ast.AsyncFunctionDef, ast.Lambda)):
+                    return False
+                loop = m.parent(loop)
+            if loop is None:
+                return False
+            child: ast.AST = v
+            par = m.parent(child)
+            while par is not None and par is not loop:
+                if isinstance(par, (ast.If, ast.IfExp)):
+                    test = par.test
+                    neg = isinstance(test, ast.UnaryOp) and isinstance(test.op, ast.Not)
+                    flag = test.operand if neg else test
+                    in_body = child is par.body if isinstance(par, ast.IfExp) else child in par.body
+                    in_else = child is par.orelse if isinstance(par, ast.IfExp) else child in par.orelse
+                    if isinstance(flag, ast.Name) and ((in_else and not neg) or (in_body and neg)):
+                        inside = [st for st in ast.walk(loop) if isinstance(st, ast.Assign) and len(st.targets) == 1 and norm(st.targets[0]) == flag.id]
+                        outside = [st for st in walk_no_nested(f.node) if isinstance(st, ast.Assign) and len(st.targets) == 1 and norm(st.targets[0]) == flag.id and st not in inside]
+                        if inside and outside and all(isinstance(st.value, ast.Constant) and st.value.value is True for st in inside) \
+                                and all(isinstance(st.value, ast.Constant) and st.value.value is False and st.lineno < loop.lineno for st in outside) \
+                                and any(st.lineno >= c.lineno for st in inside):
+                            return True
+                child, par = par, m.parent(par)
+            return False
+
+        for var, uses in by_var.items():
+            n += 1
+            finding = None
+            for c1, v1, e1 in uses:
+                starts = g.nodes_for(c1)
+                if not starts:
+                    continue
+                s1 = starts[0]
+                final_loop = last_iteration_only(c1, v1)
+                once = first_iteration_only(c1, v1)
+                blocked_heads = set()
+                if final_loop is not None:
+                    blocked_heads = {h for h in g.loop_heads if h.ast is final_loop}
+                # the statement of the first embedding may rebind the variable itself (x = paren(x, copy=False)): the old node is then out of reach
+                if rebinds(s1, var):
+                    continue
+                seen = {s1}
+                work = [s1]
+                hit = None
+                while work and hit is None:
+                    cur = work.pop()
+                    for succ, _lab in cur.succ:
+                        if succ in blocked_heads and (cur, succ) in g.back_edges:
+                            continue
+                        # a second embedding evaluated by the successor (before any rebinding that statement performs)
+                        for c2, v2, e2 in uses:
+                            if succ in g.nodes_for(c2) and (succ is not s1 or c2 is c1):
+                                if succ is s1 and c2 is c1 and (final_loop is not None or once):
+                                    continue
+                                hit = (c2, succ)
+                                break
+                        if hit:
+                            break
+                        if succ in seen or rebinds(succ, var):
+                            continue
+                        seen.add(succ)
+                        work.append(succ)
+                if hit:
+                    finding = (c1, hit[0])
+                    break
+            inst = f"{f.key}|{var}"
+            if finding is None:
+                ctx.ok(inst, None)
+                continue
+            c1, c2 = finding
+            key = (f.key, f"{var}: {norm(c1, 60)} -> {norm(c2, 60)}")
+            if key in REVIEWED_REEMBED:
+                ctx.ok(inst, {"reviewed": REVIEWED_REEMBED[key]})
+                continue
+            ctx.fail(m, c2, f.key, f"{var}: {norm(c1, 60)} -> {norm(c2, 60)}",
+                     f"`{var}` is handed un-copied to `{norm(c1, 60)}` (line {c1.lineno}) and, without being rebound, again to `{norm(c2, 60)}` (line {c2.lineno})"
+                     + (" on a later iteration of the enclosing loop" if c1 is c2 or c2.lineno <= c1.lineno else "") +
+                     ": the node is stored in two places (or re-parented while the first tree still holds it), so parent / arg_key / index describe only one of them")
+    ctx.count("moved_node_variables", n)
+    ctx.min_instances("moved_node_variables", n, 20)
+
+
+RULES = [rule_a, rule_b, rule_c, rule_d, rule_e, rule_f, rule_g, rule_h, rule_i, rule_j, rule_k]
 EXPLANATION = (
     "Who-may-write analysis over the whole package: every store to the tree representation (args items, parent/arg_key/"
     "index/_hash, raw mutation of alias-tracked child lists) is enumerated and must lie in the primitives, be a provably "
